@@ -340,8 +340,9 @@ def MergeRulesAsDisjunction(prog):
 
 def LiftPcalls(prog):
   """functional call in an expression <-> extra conjunct binding
-  logica_value.  Lifts every pcall that occurs in a rule body conjunct (not
-  nested in an aggregate body, to stay within the same scope) or head."""
+  logica_value.  Lifts every pcall into the body it is evaluated in: the rule
+  body for calls in the head and in top-level conjuncts, the body of the
+  negation / aggregating expression for calls inside those."""
   p = Unshared(prog)
   counter = [0]
   changed = [False]
@@ -351,6 +352,11 @@ def LiftPcalls(prog):
       return e
     k = e.get('k')
     if k == 'agg':
+      # calls in the aggregated value and in the body belong to the body of
+      # the aggregating expression
+      inner = []
+      e['e'] = LiftExpr(e['e'], inner)
+      e['body'] = LiftBody(e['body']) + inner
       return e
     if k == 'pcall':
       args = [{'f': a['f'], 'e': LiftExpr(a['e'], extra)} for a in e['args']]
@@ -373,6 +379,25 @@ def LiftPcalls(prog):
         out[key] = val
     return out
 
+  def LiftBody(body):
+    extra = []
+    new_body = []
+    for c in body:
+      if c['k'] in ('cmp',):
+        c['e'] = LiftExpr(c['e'], extra)
+      elif c['k'] in ('unify', 'inc'):
+        c['l'] = LiftExpr(c['l'], extra)
+        c['r'] = LiftExpr(c['r'], extra)
+      elif c['k'] == 'atom':
+        c['args'] = [{'f': a['f'], 'e': LiftExpr(a['e'], extra)}
+                     for a in c['args']]
+      elif c['k'] == 'neg':
+        c['body'] = LiftBody(c['body'])
+      elif c['k'] == 'or':
+        c['alts'] = [LiftBody(a) for a in c['alts']]
+      new_body.append(c)
+    return new_body + extra
+
   for pred in p['preds']:
     if pred['inline']:
       continue
@@ -380,18 +405,7 @@ def LiftPcalls(prog):
       extra = []
       for h in rule['head']:
         h['e'] = LiftExpr(h['e'], extra)
-      new_body = []
-      for c in rule['body']:
-        if c['k'] in ('cmp',):
-          c['e'] = LiftExpr(c['e'], extra)
-        elif c['k'] in ('unify', 'inc'):
-          c['l'] = LiftExpr(c['l'], extra)
-          c['r'] = LiftExpr(c['r'], extra)
-        elif c['k'] == 'atom':
-          c['args'] = [{'f': a['f'], 'e': LiftExpr(a['e'], extra)}
-                       for a in c['args']]
-        new_body.append(c)
-      rule['body'] = new_body + extra
+      rule['body'] = LiftBody(rule['body']) + extra
   return p if changed[0] else None
 
 
